@@ -5,6 +5,37 @@ compared with / assigned `hash(self.tree)`, the tree appended to `self.tree.chil
 and evaluate them on facts that hold at a program point (`_facts_at`: dominating branch edges with inlined tests,
 conditional expressions, short-circuit operands, comprehension filters), so that spelling, temporaries, early returns,
 inverted tests, conditional expressions instead of if/else, hoisted constants and extracted helpers do not matter.
+
+Technique
+(numbers refer to the ALLOWED list of RULES_GUIDE.md, "What counts as *static* here".  Nothing in this module evaluates
+/repo code on data: no sample inputs, no interpreter, no enumeration of values, no regex matching, no parsing of sample
+profiles.  The only "evaluation" is `const_eval` of constant expressions / module-level and class-level constant tables.)
+  general  `_facts_at`/`_edge_facts`/`_atoms`: branch edges that dominate a statement (2) with their tests rewritten by
+           substituting single-definition temporaries (3) and split into atoms by the propositional identities
+           not(a and b) = not a or not b, `x not in S` = not(`x in S`), `x != y` = not(`x == y`), `x is not y` =
+           not(`x is y`); the tests stay symbolic, nothing is solved.  `_const`: constant folding of constant expressions
+           and of module/class constant tables (6).  `_scope`: resolved callees / call graph (1).
+  R1       1 (membership tests, uses of string_token_to_bytes, slices and str-surgery calls found in the syntax tree),
+           6 (the collection of list-valued paths is a constant table, folded; compared completely with the keyword paths
+           of the compiled grammar and with the reference table csverif.tables.DATA_TRANSFORM_PATHS), 2+3 (the decode call
+           and the unquoting slice are judged on the facts that dominate them).  Lemma L1: `s[1:len(s)-1]` == `s[1:-1]` for
+           every sequence s (a negative bound counts from the end; for len(s) == 0 the two bounds are literally equal) -
+           both spellings are accepted, the `len` argument must be the sliced expression itself.
+  R2       1 (stores to self attributes, roles of the hash/cache attributes, who-may-write over the whole module, callers
+           of non-baseline helpers), 2 (reachability of a return of the cache from ENTRY avoiding the fresh-comparison
+           edges and the stores, dominance of the stores by the walk, membership of a store in a cycle), 3 (returned local
+           related to the cache attribute by its definitions; the stored value's constructor found by substituting
+           definitions), 6 (the initial value of the hash attribute is a constant).  Lemma L2: `hash(x)` is an `int`, and a
+           constant that is not a number (None, a string) compares unequal to every int - so such an initial value can
+           never satisfy `self.<hash attr> == hash(self.tree)`.
+  R3       1 (class attributes bound to helpers, resolved callees, argument binding), 3 (the `Tree(..)` term a helper
+           appends to self.tree.children is built by substituting definitions and compared structurally with the grammar
+           production's kept symbols), 5 (the alternatives of a conditional callee `self.a if t else self.b` /
+           `getattr(self, "a" if t else "b")` and the literal name sets the constructor of DataTransformBlock dispatches
+           on - all taken from the analysed code), 6 (aliases, arities, kept symbols of the compiled grammar; complete
+           comparison of name sets).
+  R4       imported: C13.R8 (rules/c13.py `r8`) - its devices are declared in the Technique section of that module.
+  R5       imported: C10.R1 (rules/c10.py `r1`) - 6 only (productions of the compiled grammar grouped and compared).
 """
 
 from __future__ import annotations
@@ -350,11 +381,22 @@ def run(ctx):
         "string_token_to_bytes and STRING tokens are unquoted with [1:-1] where they are recognised; cache coherence of "
         "as_dict on the CFG (every path to a return of the cached dictionary passes a fresh hash comparison or both stores; "
         "hash and cache stored together after the walk); every builder attribute bound to a ConfigBlock helper names a grammar "
-        "alias of the arity the helper's tree has; tree shapes built by set_option / DataTransformBlock equal the grammar's kept symbols."
+        "alias of the arity the helper's tree has; tree shapes built by set_option / DataTransformBlock equal the grammar's kept symbols; "
+        "imported: a builder-made step carries its argument iff one was given (C13.R8) and every tree name/kept-symbol group of the grammar "
+        "stands for one keyword sequence (C10.R1).  Devices: syntax-tree queries, resolved callees and who-may-write checks, CFG dominance "
+        "and reachability, facts of dominating branch edges with substituted temporaries (kept symbolic), structural comparison of the "
+        "Tree(..) terms built in code with grammar productions, case analysis over the literals the code dispatches on, constant folding "
+        "of constant tables.  No code of the package is executed or interpreted on data."
     )
     rep.not_decided = ["exactness and order of reported values for all profiles", "the token-stream stack machine's behaviour on variants",
-                       "as_dict hands out its cache by reference (observation, not armed: the property speaks of modifications of the profile)"]
-    rep.trusted_base = ["lark grammar loader", "CPython ast", "reference data-transform path list in csverif/tables.py"]
+                       "as_dict hands out its cache by reference (observation, not armed: the property speaks of modifications of the profile)",
+                       "forms the rules cannot locate are reported as undecided: a list-valued path collection that is not a constant table, a cache "
+                       "that is not a hash-keyed pair of self attributes, builder helpers whose appended Tree(..) term cannot be read off"]
+    rep.trusted_base = ["lark grammar loader", "CPython ast", "reference data-transform path list in csverif/tables.py",
+                        "BUILDER_RULES (builder class -> grammar rules) and DEAD_LIST_PROPS tables in rules/c11.py; HELPER_ARITY fallback for helpers whose tree cannot be read off",
+                        "lemma L1: s[1:len(s)-1] == s[1:-1] for every sequence s (a negative bound counts from the end)",
+                        "lemma L2: hash(x) is an int and a non-numeric constant (None, str) is unequal to every int",
+                        "R4/R5 are decided by rules/c13.py r8 and rules/c10.py r1 (their trusted base applies)"]
     g = Grammar(ctx.repo)
     r1(ctx, g)
     r2(ctx)
@@ -450,7 +492,8 @@ def r1(ctx, g):
         for n in body_walk(h.node):
             base = None
             if isinstance(n, ast.Subscript) and isinstance(n.slice, ast.Slice) and _c(n.slice.lower) == 1 and n.slice.step is None and (
-                    _c(n.slice.upper) == -1 or (isinstance(n.slice.upper, ast.BinOp) and isinstance(n.slice.upper.op, ast.Sub) and _c(n.slice.upper.right) == 1 and _is_call(n.slice.upper.left, "len"))):
+                    _c(n.slice.upper) == -1 or (isinstance(n.slice.upper, ast.BinOp) and isinstance(n.slice.upper.op, ast.Sub) and _c(n.slice.upper.right) == 1 and _is_call(n.slice.upper.left, "len")
+                                                and len(n.slice.upper.left.args) == 1 and src(_inl(h, n.slice.upper.left.args[0])) == src(_inl(h, n.value)))):  # lemma L1
                 base, site = _inl(h, n.value), True
             elif isinstance(n, ast.Call) and isinstance(n.func, ast.Attribute) and n.func.attr in ("strip", "lstrip", "rstrip", "replace", "removeprefix", "removesuffix", "translate"):
                 base, site = _inl(h, n.func.value), False
